@@ -277,6 +277,35 @@ func (e *Engine) CheckErrDiscipline(r *Report, sc errScope, accept map[string]st
 					continue
 				}
 				ok1 := true
+				// E1p: the error is looked at on some paths but not on others: a path from the call to a
+				// return on which no instruction uses the error (or an alias) drops it there
+				for _, v := range vals {
+					aliases := errAliases(v)
+					uses := map[ssa.Instruction]bool{}
+					for a := range aliases {
+						if refs := a.Referrers(); refs != nil {
+							for _, ref := range *refs {
+								if _, isDbg := ref.(*ssa.DebugRef); isDbg {
+									continue
+								}
+								uses[ref] = true
+							}
+						}
+					}
+					if len(uses) == 0 {
+						continue
+					}
+					res := e.findPath(fn, in, isReturn, func(x ssa.Instruction) bool { return uses[x] }, nil)
+					if res.Found {
+						if reason, ok := accept["E1p:"+key]; ok {
+							usedAccept["E1p:"+key] = true
+							r.add(Ob{Rule: "ERR-E1", Construct: key + " (some path)", Pos: e.ipos(in), OK: true, Detail: "accepted idiom: " + reason})
+						} else {
+							ok1 = false
+							r.bad("ERR-E1", key+" (some path)", e.ipos(in), "the error of "+lbl+" is examined on some paths only: a path from the call to a return uses neither the error nor a value derived from it", res.Trace(e)...)
+						}
+					}
+				}
 				for _, v := range vals {
 					aliases := errAliases(v)
 					// every `alias != nil` branch
